@@ -403,6 +403,16 @@ class Exec:
                 if isinstance(v, Record) and fld in v.f: v = v.f[fld]
                 else: v = None; break
             if v is not None: return v
+        if loc[0] == 'f' and len(loc[1]) >= 5 and loc[1][0] == 'obj' and loc[1][1] == 'l':
+            # member of a local object the callee runs on (this_path = ('obj', 'l', frame, decl)): the local holds a Record
+            try: base = ('l', int(loc[1][2]), loc[1][3])
+            except ValueError: base = None
+            v = st.store.get(base) if base is not None else None
+            if isinstance(v, Ref): v = st.store.get(v.loc)
+            for fld in loc[1][4:]:
+                if isinstance(v, Record) and fld in v.f: v = v.f[fld]
+                else: v = None; break
+            if v is not None: return v
         if loc[0] == 'f':
             # field of a record stored in a field
             p = loc[1]
@@ -422,6 +432,13 @@ class Exec:
 
     def write(self, loc, v, st, node):
         if loc is None: return
+        if loc[0] == 'f' and len(loc[1]) == 5 and loc[1][0] == 'obj' and loc[1][1] == 'l':
+            try: base = ('l', int(loc[1][2]), loc[1][3])
+            except ValueError: base = None
+            rec = st.store.get(base) if base is not None else None
+            if isinstance(rec, Record):
+                f = dict(rec.f); f[loc[1][4]] = v; st.store[base] = Record(f, rec.tag)
+                st.events.append(('write', node, (loc, v))); return
         if len(loc) > 3 and loc[0] == 'l':
             base = loc[:3]; rec = st.store.get(base)
             if isinstance(rec, Record) and len(loc) == 4:
@@ -813,6 +830,10 @@ class Exec:
             if ol is None:
                 ov = self._value(obj_node, st, fr)
                 ol = ov.loc if isinstance(ov, Ref) else None
+            elif obj_node.k == 'member' and (obj_node.ftype or '').rstrip().endswith('&'):
+                # a reference member designates the object it was bound to
+                rv_ = self.read(ol, st, obj_node)
+                if isinstance(rv_, Ref): ol = rv_.loc
             this_path = ol[1] if (ol is not None and ol[0] == 'f') else (('obj',) + tuple(map(str, ol)) if ol is not None else ('obj?', n.id))
         elif n.k == 'construct':
             this_path = ('tmp', n.id)
